@@ -49,7 +49,7 @@ def build(prop, tier, seed, n, n_keys, samples, stats, wall, n_viol, n_known=0, 
 
 
 def write(prop_id, ev):
-    d = os.path.join(core.VERIF, 'evidence')
+    d = os.environ.get('AYSIM_EVIDENCE_DIR') or os.path.join(core.VERIF, 'evidence')
     os.makedirs(d, exist_ok=True)
     try:
         import jsonschema
